@@ -173,6 +173,10 @@ def FSYM(**kw):
     return Env("sym", **kw)
 
 
+class DuplicatedRows(Exception):
+    pass
+
+
 def body_farmer(E, phase, c, K, base, window=False):
     """reap of a Runner / Harvester / Sampler crop killed at step c.
 
@@ -227,20 +231,27 @@ def _farmer_run(env, ctl, phase, c, base, install_choice, window):
             return Sampler(r, data_name=sname, default_combos={"a": [10, 11], "b": [20]})
 
         old_cells = None
+        f0 = None
         if phase == 6:
-            Harvester(Runner(lambda a, b=20: fn(a, b), "x"), data_name=dname).harvest_combos({"a": [7]}, verbosity=0)
-            old_cells = fingerprint(env, mg.load_ds(dname))["cells"]
+            # the harvester that sows already holds data in memory (it is pickled with the crop) ...
+            f0 = farmer()
+            f0.harvest_combos({"a": [7]}, verbosity=0)
         if phase == 7:
             install_choice(env, [0] * 12)
             farmer().sample_combos(1, verbosity=0)
             old_rows = rows_of(env, mg.load_df(sname))
             install_choice(env, [1, 0] * 6)
-        f0 = farmer()
+        if f0 is None:
+            f0 = farmer()
         crop = f0.Crop(name="t", parent_dir=env.parent, batchsize=2)
         if phase == 7:
             crop.sow_samples(2, verbosity=0)
         else:
             crop.sow_combos(combos, verbosity=0)
+        if phase == 6:
+            # ... and another process merges a further point into the file between the sow and the reap
+            farmer().harvest_combos({"a": [8]}, verbosity=0)
+            old_cells = fingerprint(env, mg.load_ds(dname))["cells"]
         for i in range(1, crop.num_batches + 1):
             cp.grow(i, crop=crop, verbosity=0)
 
@@ -273,6 +284,11 @@ def _farmer_run(env, ctl, phase, c, base, install_choice, window):
         # recovery by a fresh process: reap again if the crop is still complete, else nothing to do
         f1 = farmer()
         c1 = f1.Crop(name="t", parent_dir=env.parent, batchsize=2)
+        if phase == 6 and c1.is_prepared():
+            try:
+                c1 = cp.Crop(name="t", parent_dir=env.parent)      # the crop and its farmer as stored on disk
+            except (OSError, EOFError):
+                pass            # half-deleted crop: loading it by name refuses loudly, which the property allows
         delivered = None
         if c1.is_prepared():
             try:
@@ -309,6 +325,9 @@ def _farmer_run(env, ctl, phase, c, base, install_choice, window):
         # Sampler: the new rows are there exactly once
         final = rows_of(env, mg.load_df(sname))
         new = final[len(old_rows):]
+        if window and killed and final[:len(old_rows)] == old_rows and len(new) == 4 and new[:2] == new[2:]:
+            # the symptom of the listed finding, and nothing else: the two new rows are there twice
+            raise DuplicatedRows("the recovery reap appended the rows of the crop a second time")
         return (final[:len(old_rows)] == old_rows and len(new) == 2), killed
 
 
@@ -350,6 +369,7 @@ ASSUMPTIONS = [
 
 
 def classify(cond, args, detail):
-    if cond in ("farmer_phase7", "sampler_dup_window"):
+    # only the probe condition, only its one crash instant, only the duplicated-rows symptom
+    if cond == "sampler_dup_window" and args.get("c") == 4 and "DuplicatedRows" in str(detail):
         return "sampler-rows-duplicated-if-killed-between-save-and-crop-deletion"
     return None
